@@ -87,7 +87,9 @@ Definition set_outgoing (st : state) (x : bool) := mkState (serial st) (calls st
 Definition set_fault (st : state) (x : N) := mkState (serial st) (calls st) (queue st) (wire st) (peer_closed st) (connected st) (disc_link st) (outgoing st) x.
 
 (* _dbus_connection_new_for_transport: client_serial = 1, everything empty *)
-Definition init : state := mkState 1 [] [] [] false true true false 0.
+Definition init_at (b : N) : state := mkState b [] [] [] false true true false 0.
+(* a connection that has already handed out b - 1 serials; a fresh one has b = 1 *)
+Definition init : state := init_at 1.
 
 Inductive obs :=
 | OSent (s : option N)            (* serial given to the call message, None = no DBusPendingCall returned *)
